@@ -281,3 +281,49 @@ func Recover(f func() string) (res string) {
 	}()
 	return f()
 }
+
+// KV extracts key=value from a model answer.
+func KV(s, key string) string {
+	for _, t := range strings.Split(s, " ") {
+		if strings.HasPrefix(t, key+"=") {
+			return t[len(key)+1:]
+		}
+	}
+	return ""
+}
+
+// Unhex decodes the line-protocol hex ("-" = empty).
+func Unhex(s string) []byte {
+	if s == "-" || s == "" {
+		return nil
+	}
+	b, err := hex.DecodeString(s)
+	if err != nil {
+		panic("bad hex from model: " + s)
+	}
+	return b
+}
+
+// Trunc shortens a string for reports.
+func Trunc(s string) string {
+	if len(s) > 200 {
+		return s[:200] + "…"
+	}
+	return s
+}
+
+// Compare records a case and, if model and impl differ or the monitor fired, a disagreement.
+// mon is the model-independent property monitor's verdict ("" = fine).
+func (r *Report) Compare(op, model, impl, branch, key, mon string) {
+	r.Case(op, model, impl, branch, true)
+	if model == impl && mon == "" {
+		return
+	}
+	d := Disagreement{Op: op, Model: Trunc(model), Impl: Trunc(impl), Branch: branch, Key: key}
+	if mon != "" {
+		d.Monitor, d.What = "confirmed", mon
+	} else {
+		d.Monitor, d.What = "unconfirmed", "model and implementation disagree ("+key+")"
+	}
+	r.Disagree(d)
+}
